@@ -238,3 +238,102 @@ func ruleNClimb(w *World, r *Report) {
 		r.undec("N-CLIMB", "sites", "", "no climbing walk found in the iterators of the following/preceding axes")
 	}
 }
+
+// ---------- N-ATTR ----------
+
+// ruleNAttr: an attribute node has no attributes. MoveToNextAttribute on a
+// cursor that already stands on an attribute continues with the *next
+// attribute of the same element* (that is how a navigator enumerates them), so
+// an attribute-axis iterator started on an attribute node would hand out the
+// sibling attributes. The iterator of the type built for the attribute axis
+// must therefore look at the node type of its input node before it starts:
+// the place where the walk is set up is dominated by one arm of a comparison
+// of the input node's NodeType() with a node-type constant.
+func ruleNAttr(w *World, r *Report) {
+	r.rule("N-ATTR", "the iterator built for the attribute axis starts its MoveToNextAttribute walk only under a test of the input node's NodeType(): started on an attribute node the walk would enumerate the sibling attributes (an attribute has no attributes)")
+	tab, _, err := w.axisTable()
+	if err != nil {
+		r.bad("ANCHOR", "N-ATTR", "", "axis dispatch not found: "+err.Error())
+		return
+	}
+	sel := w.selectMethod()
+	seenT := map[*QType]bool{}
+	n := 0
+	for _, e := range tab {
+		if e.Label != "attribute" || seenT[e.Type] {
+			continue
+		}
+		seenT[e.Type] = true
+		sfn := e.Type.Methods[sel]
+		if sfn == nil {
+			continue
+		}
+		n++
+		r.FuncsAnalysed[fnName(sfn)] = true
+		key := e.Type.Name()
+		// where the walk is set up: the closure that moves, or the first move itself
+		var setup []ssa.Instruction
+		eachInstr(sfn, false, func(_ *ssa.Function, in ssa.Instruction) {
+			switch x := in.(type) {
+			case *ssa.MakeClosure:
+				if cf, ok := x.Fn.(*ssa.Function); ok && w.movesOf(cf, "", false, map[*ssa.Function]bool{})["MoveToNextAttribute"] {
+					setup = append(setup, in)
+				}
+			case ssa.CallInstruction:
+				if _, m, _, ok := w.isNavCall(x); ok && m == "MoveToNextAttribute" {
+					setup = append(setup, in)
+				}
+				if callee := x.Common().StaticCallee(); callee != nil && w.inPkg(callee) && w.isIteratorHelper(callee, sfn, x.Common()) && w.movesOf(callee, "", false, map[*ssa.Function]bool{})["MoveToNextAttribute"] {
+					setup = append(setup, in)
+				}
+			}
+		})
+		if len(setup) == 0 {
+			r.undec("N-ATTR", key, w.pos(sfn.Pos()), "the place where the attribute walk is set up was not found")
+			continue
+		}
+		guarded := func(at ssa.Instruction) bool {
+			for _, b := range sfn.Blocks {
+				ifi := blockIf(b)
+				if ifi == nil {
+					continue
+				}
+				cmp, _ := decodeCond(ifi.Cond)
+				if cmp == nil {
+					continue
+				}
+				isTypeRead := func(v ssa.Value) bool {
+					c, ok := strip(v).(*ssa.Call)
+					if !ok {
+						return false
+					}
+					_, m, _, ok := w.isNavCall(c)
+					return ok && m == "NodeType"
+				}
+				if !(isTypeRead(cmp.X) || isTypeRead(cmp.Y)) {
+					continue
+				}
+				for _, s := range b.Succs {
+					if len(s.Preds) == 1 && (s == at.Block() || s.Dominates(at.Block())) {
+						return true
+					}
+				}
+			}
+			return false
+		}
+		okAll := true
+		for _, at := range setup {
+			if !guarded(at) {
+				okAll = false
+				r.bad("N-ATTR", key, w.instrPos(at), e.Type.Name()+" starts its MoveToNextAttribute walk without looking at the node type of the input node: from an attribute node the walk continues with the following attributes of the same element, so @a/@* selects sibling attributes (an attribute has no attributes)")
+				break
+			}
+		}
+		if okAll {
+			r.ok("N-ATTR", key, w.pos(sfn.Pos()), "the attribute walk is set up under a test of the input node's type")
+		}
+	}
+	if n == 0 {
+		r.undec("N-ATTR", "sites", "", "no query type built for the attribute axis found")
+	}
+}
